@@ -66,6 +66,13 @@ type Target struct {
 	// name of the auth handler for this target
 	AuthScheme string
 
+	// authRequired is set when the options of the target contain the auth
+	// option, whatever its value. An auth option without a value ("auth=",
+	// "auth" or "auth= name" which the option parser splits at the blank)
+	// names no scheme that can exist: it rejects everything instead of
+	// leaving the target without authentication.
+	authRequired bool
+
 	// ProxyProto enables PROXY Protocol on upstream connection
 	ProxyProto bool
 
